@@ -58,8 +58,38 @@ SRC = '/sim/Data.fs'
 _n = [0]
 
 
+def gen_regrow(r, tier):
+    """Pack, then equal-sized commits that grow the file back to a size
+    it had at an earlier backup: only the checksum tells a quick backup
+    that the file is a different one."""
+    size = r.choice((0, 10, 200, 1000))
+    k = r.randint(1, 3)
+
+    def commits(n):
+        return [{'op': 'txn', 'recs': [{'cls': 'Cell', 'o': 0,
+                                        'size': size}]}
+                for _ in range(n)]
+    ops = commits(1)
+    for _ in range(r.randint(2, 4)):
+        ops.append({'op': 'pack', 'where': 'after_all', 'at': 0})
+        ops.extend(commits(k))
+        if r.random() < 0.2:
+            ops.extend(commits(1))
+        ops.append({'op': 'backup', 'full': False,
+                    'quick': r.random() < 0.85, 'gzip': r.random() < 0.2,
+                    'killold': False})
+        if r.random() < 0.3:
+            ops.append({'op': 'clockstep', 's': r.choice((1, 61))})
+    ops.append({'op': 'backup', 'full': False, 'quick': r.random() < 0.5,
+                'gzip': False, 'killold': False})
+    return {'ops': ops, 'bufsize': r.choice((64, 8192, 65536)),
+            'chunk': r.choice((7, 1024, 16384)), 'tier': tier}
+
+
 def gen(seed, tier):
     r = random.Random(seed)
+    if r.random() < 0.1:
+        return gen_regrow(r, tier)
     ops = []
     hist = G.gen_history(ctx.subseed(seed, 'h'), 'file', n=30,
                          weights={'new_oid': 0, 'wrong': 0, 'clock': 0,
